@@ -15,7 +15,9 @@ RULE = ("histories of 20-70 Vdata calls (VSattach new/r/w, VSfdefine, VSsetinter
         "reads of every range with random field subsets and permutations in both buffer interlaces; file interlace "
         "NO_INTERLACE with whole-table transfers; a second Vdata written in between so that appends go through linked "
         "blocks with block sizes 1..64 and 1..3 blocks per table; transfers of more than VDATA_BUFFER_MAX bytes; a "
-        "malformed stream (counts <= 0, bad interlace codes, negative seeks, reads past the end, unknown fields, calls "
+        "several simultaneous attachments of one vdata (read+read with positions of their own, reads without a seek right "
+        "after VSattach, interleaved positions, detach of one while the others go on; read-then-write and "
+        "write-then-read attachments, which must be refused); a malformed stream (counts <= 0, bad interlace codes, negative seeks, reads past the end, unknown fields, calls "
         "on detached ids) that must fail.  All choices from one PRNG (VERIF_SEED); a light shadow state only steers "
         "weights.  A history is non-trivial when it writes records and reads some back; distinct by op text")
 TRUSTED = ["Coq 8.16.1 kernel", "extraction (ExtrOcamlBasic only; Z/positive/nat inductive)",
@@ -28,9 +30,12 @@ TRUSTED = ["Coq 8.16.1 kernel", "extraction (ExtrOcamlBasic only; Z/positive/nat
            "modelled, not verified here: DFKconvert (C06 specification: strided byte copy with reversal for big-endian file "
            "types), the data element as a byte stream (C01 specification), attribute lists of the Vdata header, "
            "stdio"]
-ASSUMPTIONS = ["host is little-endian and isize = esize for every supported number type (generated fact "
+ASSUMPTIONS = ["several attachments of one vdata: each has its own current record (0 after VSattach) and field selection; "
+               "the library shares one position and one selection among the read attachments, so an attachment relies on "
+               "them only when it was the last to position / select (otherwise: outside the domain)",
+               "host is little-endian and isize = esize for every supported number type (generated fact "
                "DFKNTsize_switch; hypothesis of vsread_after_vswrite)",
-               "domain: one attachment per Vdata at a time; VSsetfields naming the whole schema before VSwrite and naming "
+               "domain: VSsetfields naming the whole schema before VSwrite and naming "
                "distinct fields before VSread in the same attachment; seeks within 0..record count; block sizes large enough that a "
                "history needs far fewer than the 65535 refs of a file (ref exhaustion is C20); a Vdata whose file "
                "interlace is NO_INTERLACE with more than one field supports whole-table transfers from record 0 only "
@@ -416,6 +421,111 @@ def gen_history(r, name, kind="std"):
     return L
 
 
+def gen_multi(r, name):
+    """several simultaneous attachments of one vdata: r+r (own positions from record 0, reads without an explicit seek
+    right after VSattach, interleaved positions, detach of one while the others go on), r then w and w then r (refused).
+    An attachment relies on its position / field selection only when it was the last to set it (shared in the library)."""
+    L = ["history " + name]
+    fields = gen_schema(r)
+    names = [f[0] for f in fields]
+    rs = sum(f[3] for f in fields)
+    L.append("new 0")
+    for f in fields:
+        if f[0] not in RESERVED:
+            L.append("define 0 %s %d %d" % (f[0], f[1], f[2]))
+    L.append("setfields 0 %s" % ",".join(names))
+    nrec = r.choice([3, 5, 8, 13, 21, 30])
+    L.append("write 0 %d %d %s" % (nrec, r.choice([0, 1]), rbytes(r, nrec * rs).hex()))
+    if r.random() < 0.25:       # w then r: refused, the writer goes on
+        L.append("attachto 8 0 r")
+        L.append("write 0 2 0 %s" % rbytes(r, 2 * rs).hex())
+        nrec += 2
+        L.append("elts 0")
+    L.append("detach 0")
+    if r.random() < 0.3:
+        L.append("reopen")
+    att = {}            # handle -> dict(pos, rl)
+    mover = rlset = None
+    free = [0, 8, 9, 10, 11]
+
+    def attach_r():
+        nonlocal mover
+        h = r.choice([x for x in free if x not in att])
+        L.append("attach 0 r" if h == 0 else "attachto %d 0 r" % h)
+        att[h] = dict(pos=0, rl=None)
+        mover = h
+        return h
+
+    def select(h):
+        nonlocal rlset
+        sel = r.sample(names, r.randrange(1, len(names) + 1)) if r.random() < 0.6 else list(names)
+        L.append("setfields %d %s" % (h, ",".join(sel)))
+        att[h]["rl"] = sel
+        rlset = h
+
+    def read(h, seek=None):
+        nonlocal mover
+        a = att[h]
+        if rlset != h or a["rl"] is None:
+            select(h)
+        if seek is None and (mover != h or a["pos"] is None or a["pos"] >= nrec):
+            seek = r.randrange(0, nrec)
+        if seek is not None:
+            L.append("seek %d %d" % (h, seek))
+            a["pos"] = seek
+            mover = h
+        n = r.choice([1, 1, 2, 3, nrec - a["pos"]])
+        n = max(1, min(n, nrec - a["pos"]))
+        L.append("read %d %d %d" % (h, n, r.choice([0, 0, 1])))
+        a["pos"] += n
+        mover = h
+
+    h0 = attach_r()
+    read(h0)
+    for _ in range(r.randrange(10, 30)):
+        k = r.random()
+        hs = list(att)
+        if k < 0.22 and len(att) < 4:
+            h = attach_r()
+            if r.random() < 0.8:        # the new attachment reads from record 0 without a seek
+                read(h)
+        elif k < 0.30 and hs:
+            L.append("attachto %d 0 w" % r.choice([x for x in [12, 13] if x not in att]))    # refused
+        elif k < 0.62 and hs:
+            read(r.choice(hs))
+        elif k < 0.74 and hs:
+            read(r.choice(hs), seek=r.choice([0, nrec - 1, r.randrange(0, nrec)]))
+        elif k < 0.82 and hs:
+            h = r.choice(hs)
+            L.append(r.choice(["elts %d", "inquire %d", "nfields %d"]) % h)
+        elif k < 0.95 and hs:
+            h = r.choice(hs)
+            L.append("detach %d" % h)
+            del att[h]
+            if not att and r.random() < 0.5:
+                # a writer in between: append, then readers again
+                L.append("attach 0 w")
+                L.append("setfields 0 %s" % ",".join(names))
+                L.append("seek 0 %d" % nrec)
+                m = r.choice([1, 2, 5])
+                L.append("write 0 %d 0 %s" % (m, rbytes(r, m * rs).hex()))
+                nrec += m
+                if r.random() < 0.5:
+                    L.append("attachto 9 0 r")      # refused while written
+                L.append("detach 0")
+                mover = rlset = None
+        elif not hs:
+            read(attach_r())
+    for h in list(att):
+        L.append("detach %d" % h)
+    L.append("reopen")
+    L.append("attach 0 r")
+    L.append("setfields 0 %s" % ",".join(names))
+    L.append("read 0 %d %d" % (nrec, r.choice([0, 1])))
+    L.append("detach 0")
+    return L
+
+
 # --------------------------------------------------------------------------------------------------------
 
 def split_histories(lines):
@@ -560,12 +670,13 @@ def run(ctx):
     for fn in sorted(os.listdir(cdir)) if os.path.isdir(cdir) else []:
         corpus += split_histories([l for l in open(os.path.join(cdir, fn)).read().splitlines() if l.strip() and not l.startswith("#")])
     quick = ctx.tier == "quick"
-    nh = 190 if quick else 4000
+    nh = 170 if quick else 4000
     hists = list(corpus)
     hists += [gen_history(r, "g%d" % i, "std") for i in range(nh)]
     hists += [gen_history(r, "n%d" % i, "noil") for i in range(nh // 6)]
     hists += [gen_history(r, "l%d" % i, "lb") for i in range(nh // 3)]
     hists += [gen_history(r, "m%d" % i, "mal") for i in range(nh // 4)]
+    hists += [gen_multi(r, "a%d" % i) for i in range(nh // 3)]
     hists += [gen_history(r, "b%d" % i, "big") for i in range(3 if quick else 30)]
     rc, R, S, flat, mcalls = run_histories(ctx, hists, "main", trace=True)
     opmix, fails_r, nviol, known_hists = {}, 0, 0, 0
